@@ -53,6 +53,10 @@ func c11Scenarios(thorough bool) []*scenario {
 		mk("add-race[]", "", []cop{add("w", "x", false), a("w", "y")}, []cop{add("w", "y", true), a("w", "x")}),
 		mk("two-updates[]", "", []cop{upd("u", "n1"), a("u", "n2")}, []cop{upd("u", "n2"), a("u", "n1")}),
 	)
+	out = append(out,
+		mk("web-update-oldpw-vs-update[]", "", []cop{{Kind: "webupdate", User: "u", Pw: "o", NewPw: "w1"}}, []cop{upd("u", "n")}),
+		mk("web-update-oldpw-vs-remove[]", "", []cop{{Kind: "webupdate", User: "u", Pw: "o", NewPw: "w1"}}, []cop{rm("u"), add("u", "m", false)}),
+	)
 	if thorough {
 		out = append(out,
 			mk("mgmt-mix-auth[]", "", []cop{add("w", "x", false), ls}, []cop{rm("v")}, []cop{sa("u", true), a("u", "o")}),
@@ -145,6 +149,14 @@ func applyModel(m lmodel, o cop) string {
 		r.pw = o.Pw
 		m[user] = r
 		return "ok"
+	case "webupdate":
+		// HTTP password update authorised by the old password: one request
+		if !ok || r.pw != o.Pw {
+			return "false"
+		}
+		r.pw = o.NewPw
+		m[user] = r
+		return "true"
 	case "add":
 		if ok {
 			return "err"
@@ -333,7 +345,7 @@ func c11Final(s *mc.Sched) []mc.Viol {
 			ops = append(ops, e.Op.Kind)
 		}
 		sort.Strings(ops)
-		v = append(v, mc.Viol{Key: "not-linearizable:" + kind + ":upgrades=" + w.sc.Upgrades,
+		v = append(v, mc.Viol{Key: "not-linearizable:" + kind + ":" + strings.Join(ops, "+") + ":upgrades=" + w.sc.Upgrades,
 			Desc: fmt.Sprintf("no sequential order consistent with real time explains the history (%s): events %s ; final store %s",
 				kind, strings.Join(w.describeEvents(), " | "), saveFinal)})
 	}
